@@ -3,6 +3,8 @@ C13 — bans are exact, durable and enforced.  Property theorems only; lemmas li
 in Neutrino/Lemmas/Ban*.lean.
 -/
 import Neutrino.Lemmas.BanHist
+import Neutrino.Lemmas.BanEnforce
+import Neutrino.Gen.Ban
 namespace Neutrino.Ban
 
 /-! ## First sentence: the store -/
@@ -199,6 +201,137 @@ theorem C13_key_canonical :
       cases hk' : encodeKey ip' m with
       | none => rw [hk'] at h2; exact absurd h2 (by simp)
       | some k' => rw [(key_eq_iff_id_eq hk hk' hi hi').mpr rfl]
+
+/-! ## Second sentence: enforcement (decision logic of neutrino.go) -/
+
+/-- **C13, enforcement clause, as stated**: after any sequence of
+outbound-connected / version / add-peer / ban-peer (misbehaviour detected) /
+unban / peer-done events at non-decreasing times, no peer in the connected set
+has an address that `IsBanned` reports banned at that time.  FALSE of the code
+when two peers share an IP address (different ports): `BanPeer` bans the IP
+network but disconnects only `PeerByAddr(addr)`, the peer with exactly that
+address string — see `C13_enforced_counterexample`. -/
+def C13_enforced : Prop :=
+  ∀ (T0 : Int) (evs : EvHist) (now : Int), monoEv T0 evs → endEv T0 evs ≤ now →
+    ∀ p, p ∈ (runNet {} evs).connected → (isBanned (runNet {} evs).store now p).2 = false
+
+def exPeerA : Peer := ⟨v4Prefix ++ [127, 0, 0, 1], 18444⟩
+def exPeerB : Peer := ⟨v4Prefix ++ [127, 0, 0, 1], 18445⟩
+/-- two nodes on one host: both connect, A misbehaves and is banned -/
+def exEvs : EvHist :=
+  [(0, .outbound exPeerA), (1, .version exPeerA 1101), (2, .addPeer exPeerA),
+   (3, .outbound exPeerB), (4, .version exPeerB 1101), (5, .addPeer exPeerB),
+   (6, .banPeer exPeerA 5)]
+
+/-- 127.0.0.1:18445 stays connected although 127.0.0.1 is banned. -/
+theorem C13_enforced_counterexample : ¬ C13_enforced := by
+  intro h
+  have h1 := h 0 exEvs 6 (by simp [monoEv, exEvs]) (by decide) exPeerB (by decide)
+  revert h1
+  decide
+
+/-- **What the code does guarantee**: the full statement for every event
+sequence in which no two peers denote the same IP network (`OnePerHost` on the
+peers occurring in the events: equal store keys ⇒ equal peer). -/
+theorem C13_enforced_partial (T0 : Int) (evs : EvHist) (now : Int)
+    (hone : OnePerHost (fun p => ∃ x, x ∈ evs ∧ x.2.peer = p))
+    (hm : monoEv T0 evs) (hn : endEv T0 evs ≤ now) :
+    ∀ p, p ∈ (runNet {} evs).connected → (isBanned (runNet {} evs).store now p).2 = false := by
+  have hc : Clean (runNet {} evs) (endEv T0 evs) :=
+    clean_run hone {} T0 evs (fun _ hp => absurd hp (by simp)) (fun _ hp => absurd hp (by simp))
+      (fun x hx => ⟨x, hx, rfl⟩) hm
+  exact fun p hp => not_banned_of_clean _ _ _ hn hc p hp
+
+/-- **A peer that does not offer WITNESS and CF is banned and dropped**: in
+every state, `OnVersion` on a pending peer whose service bits lack either flag
+leaves its address banned (reason NoCompactFilters, for `BanDuration`) and the
+peer neither pending nor connected; a peer that offers both is left alone. -/
+theorem C13_version_enforced (n : Net) (t : Int) (p : Peer) (services : Nat) (k : Bytes)
+    (hp : p ∈ n.pending) (hk : keyOf p.target = some k) :
+    (hasRequired services = false →
+      let n' := stepNet n t (.version p services)
+      (∃ e, (step n'.store t (.status p.target)).2 = .banned reasonNoCompactFilters e) ∧
+      (isBanned n'.store t p).2 = true ∧ p ∉ n'.pending ∧ p ∉ n'.connected) ∧
+    (hasRequired services = true → stepNet n t (.version p services) = n) := by
+  constructor
+  · intro hr
+    simp only [stepNet, hp, ↓reduceIte, hr, Bool.false_eq_true, banPeer]
+    have hst : step (step n.store t (.ban p.target reasonNoCompactFilters banDurationMs)).1 t (.status p.target) =
+        ((step n.store t (.ban p.target reasonNoCompactFilters banDurationMs)).1,
+         .banned reasonNoCompactFilters ((t + banDurationMs) / 1000 * 1000)) := by
+      rw [step_status_some _ _ _ k hk, step_ban_some _ _ _ _ _ k hk]
+      simp only [lookup_put_self]
+      have : ¬ (t ≥ (t + banDurationMs) / 1000 * 1000) := by simp only [banDurationMs]; omega
+      simp only [this, ↓reduceIte]
+    refine ⟨⟨_, congrArg Prod.snd hst⟩, ?_, not_mem_without _ _, not_mem_without _ _⟩
+    simp only [isBanned, hst]
+  · intro hr
+    simp only [stepNet, hp, ↓reduceIte, hr]
+
+/-- After `BanPeer` (from any of the misbehaviour sites) the peer is not
+connected and its address is banned with the given reason. -/
+theorem C13_banPeer_enforced (n : Net) (t : Int) (p : Peer) (reason : Nat) (k : Bytes)
+    (hk : keyOf p.target = some k) :
+    let n' := stepNet n t (.banPeer p reason)
+    p ∉ n'.connected ∧ ∃ e, (step n'.store t (.status p.target)).2 = .banned reason e := by
+  simp only [stepNet, banPeer]
+  refine ⟨not_mem_without _ _, (t + banDurationMs) / 1000 * 1000, ?_⟩
+  rw [step_status_some _ _ _ k hk, step_ban_some _ _ _ _ _ k hk]
+  simp only [lookup_put_self]
+  have : ¬ (t ≥ (t + banDurationMs) / 1000 * 1000) := by simp only [banDurationMs]; omega
+  simp only [this, ↓reduceIte]
+
+/-- A banned address is refused at both doors: `outboundPeerConnected` does not
+create the peer, `handleAddPeerMsg` does not record it (and drops the socket). -/
+theorem C13_banned_refused (n : Net) (t : Int) (p : Peer) (hb : (isBanned n.store t p).2 = true) :
+    (stepNet n t (.outbound p)).pending = n.pending ∧
+    (stepNet n t (.outbound p)).connected = n.connected ∧
+    (stepNet n t (.addPeer p)).connected = n.connected ∧
+    p ∉ (stepNet n t (.addPeer p)).pending := by
+  simp only [stepNet, hb, ↓reduceIte]
+  by_cases hp : p ∈ n.pending
+  · simp only [hp, ↓reduceIte]
+    exact ⟨trivial, trivial, trivial, not_mem_without _ _⟩
+  · simp only [hp, ↓reduceIte]
+    exact ⟨trivial, trivial, trivial, fun h => h⟩
+
+/-- The facts regenerated from banman/*.go and neutrino.go on this run, on which
+the models above rely: key layout and To4/To16 normalisation, default masks,
+port stripping, masked IP with the mask as given; the stored value is the Unix
+SECONDS of `now + duration`; `Status` deletes when `!now.Before(expiry)`;
+`OnVersion` tests WITNESS and CF, then `BanPeer(addr, NoCompactFilters)`,
+`Disconnect`, return; `handleAddPeerMsg` and `outboundPeerConnected` test
+`IsBanned` before recording / creating the peer; `IsBanned` and `BanPeer` go
+through `ParseIPNet(addr, nil)` and the store with `BanDuration`; `BanPeer`
+disconnects `PeerByAddr(addr)`; every other `BanPeer` call site passes one of
+the "provably invalid" reasons. -/
+theorem C13_source_facts :
+    Gen.Ban.ipv4Type = 0 ∧ Gen.Ban.ipv6Type = 1 ∧
+    Gen.Ban.encodeNormalisesTo4 = true ∧ Gen.Ban.encodeElseTo16 = true ∧
+    Gen.Ban.encodeWrites = ["[]byte{ipType}", "ip", "[]byte(ipNet.Mask)"] ∧
+    Gen.Ban.defaultV4Mask = "net.CIDRMask(32,32)" ∧ Gen.Ban.defaultV6Mask = "net.CIDRMask(128,128)" ∧
+    Gen.Ban.parseSplitsPort = true ∧ Gen.Ban.parseDefaultMasks = true ∧ Gen.Ban.parseMasksIP = true ∧
+    Gen.Ban.expiryAbsoluteSeconds = true ∧ Gen.Ban.statusDeletesWhenNotBefore = true ∧
+    Gen.Ban.fetchReadsSeconds = true ∧
+    Gen.Ban.reasonNoCompactFilters = reasonNoCompactFilters ∧ Gen.Ban.banDurationMs = banDurationMs ∧
+    Gen.Ban.onVersionServiceTest = true ∧ Gen.Ban.onVersionBans = true ∧ Gen.Ban.onVersionDisconnects = true ∧
+    Gen.Ban.requiredServiceFlags = ["wire.SFNodeWitness", "wire.SFNodeCF"] ∧
+    Gen.Ban.addPeerRefusesBanned = true ∧ Gen.Ban.outboundRefusesBanned = true ∧
+    Gen.Ban.isBannedUsesStore = true ∧ Gen.Ban.banPeerUsesStore = true ∧ Gen.Ban.banPeerDisconnects = true ∧
+    (∀ s, s ∈ Gen.Ban.banPeerSites → s ∈ ["query.go:banman.InvalidBlock", "blockmanager.go:banman.InvalidFilterHeader",
+      "blockmanager.go:banman.InvalidFilterHeaderCheckpoint"]) ∧
+    Gen.Ban.banPeerSites.length = 8 := by decide
+
+/-! ### Non-vacuity (enforcement) -/
+example : OnePerHost (fun p => ∃ x, x ∈ ([(0, .outbound exPeerA), (1, .version exPeerA 8)] : EvHist) ∧ x.2.peer = p) := by
+  intro p q ⟨x, hx, hxp⟩ ⟨y, hy, hyq⟩ _ _
+  simp only [List.mem_cons, List.not_mem_nil, or_false] at hx hy
+  rcases hx with rfl | rfl <;> rcases hy with rfl | rfl <;> simp_all [Ev.peer]
+example : hasRequired 1101 = true ∧ hasRequired 1037 = false ∧ hasRequired 8 = false := by decide
+example : (runNet {} exEvs).connected = [exPeerB] := by decide
+example : (runNet {} [(0, .outbound exPeerA), (1, .version exPeerA 1037), (2, .addPeer exPeerA)]).connected = [] ∧
+    (isBanned (runNet {} [(0, .outbound exPeerA), (1, .version exPeerA 1037)]).store 5 exPeerA).2 = true := by decide
+example : keyOf exPeerA.target = some [0, 127, 0, 0, 1, 255, 255, 255, 255] := by decide
 
 /-! ### Non-vacuity -/
 
